@@ -1506,6 +1506,27 @@ def grd6(P, R, L, rule="GRD-6"):
         ok = n_short_tests >= 2 and all(pr.must_pass(p_.bb, through_edges=[(s, t) for (s, t) in e_full if s == sb]) for sb in {sb for (sb, _) in e_short})
         R.check(rule, READ_PHYS + "|parse-only-full-fragment", ok, p_.where(),
                 "BlockRecord::try_from is reached only when header and payload were read completely", "")
+    # a fragment that was read and parsed is delivered: nothing that can fail on a file ending inside the block trailer
+    # (a further read whose error is simply propagated) lies between the parser and the return -- the trailer is skipped
+    # lazily, before the *next* header, so a log whose last record ends 1..6 bytes before a block boundary keeps it
+    late = []
+    for p_ in parse:
+        after = pr.reachable(p_.target) if p_.target is not None else set()
+        for c in pr.calls():
+            nm = c.declared_name or c.name or ""
+            if c.bb not in after or pr.is_cleanup(c.bb) or not (nm.endswith("Read::read") or nm.endswith("Read::read_exact")):
+                continue
+            tolerant = False
+            for t in result_tests(pr, c.dest["l"]) if c.dest else []:
+                for e in t.err_edges():
+                    rr_ = pr.reachable(e[1])
+                    if any((x.name or "").endswith("Error::kind") for x in pr.calls() if x.bb in rr_):
+                        tolerant = True
+            if not tolerant:
+                late.append("line %s" % c.line)
+    R.check(rule, READ_PHYS + "|parsed-fragment-is-returned", bool(parse) and not late, where(pr),
+            "no file read whose failure is propagated follows the successful parse of a fragment (the block trailer is skipped before "
+            "the next header read, not after the record)", "; ".join(late) or "parse sites %d" % len(parse))
 
 
 def ord14(P, R, L, rule="ORD-14"):
@@ -4158,6 +4179,7 @@ def bundle_readpath(P, R, L):
     bundle_filter(P, R, L)
     R.once(own10_cache_partitions, P, R, L)
     R.once(own11_table_cache_key, P, R, L)
+    agr2_codec_pairs(P, R, L, groups=("table",))
 
 
 def bundle_recovery(P, R, L):
@@ -4176,6 +4198,7 @@ def bundle_recovery(P, R, L):
     R.once(grd22_flush_during_compaction, P, R, L)
     from . import c02
     R.once(c02.grd1_replay, P, R, L)
+    agr2_codec_pairs(P, R, L, groups=("batch", "log", "manifest"))
 
 
 def bundle_filter(P, R, L):
@@ -4804,3 +4827,156 @@ def own12_release_unlinks_that_version(P, R, L, rule="OWN-12"):
     ok = bool(rm) and not other and all(any(o.kind == "param" and o.name == 2 for o in origins(b, c.args[1])) for c in rm)
     R.check(rule, fn + "|unlinks-the-node-it-was-given", ok, where(b), "the only list mutation is remove_node(the version node passed in)",
             "remove_node sites %d, other list mutations %s" % (len(rm), [c.name.rsplit("::", 1)[1] for c in other]))
+
+
+def grd24_reuse_adopts_number_with_file(P, R, L, rule="GRD-24"):
+    """VersionSet::maybe_reuse_manifest may decline (option off, not a manifest name, too large, cannot be opened for
+    appending); log_and_apply then allocates a fresh manifest. `manifest_file_number` is what remove_obsolete_files keeps
+    and what CURRENT is pointed at, so it is overwritten with the old manifest's number only together with adopting the
+    old file: every store to manifest_file_number / maybe_manifest_file lies behind the Ok edge of LogWriter::new."""
+    fn = "versioning::version_set::VersionSet::maybe_reuse_manifest"
+    b = P.body(fn)
+    if b is None:
+        return R.missing_anchor(rule, fn)
+    R.analysed(b)
+    opens = [c for c in b.calls() if not b.is_cleanup(c.bb) and c.name == "logs::LogWriter::new"]
+    ok_edges = []
+    for c in opens:
+        for t in result_tests(b, c.dest["l"]):
+            ok_edges += t.ok_edges()
+    bad, n = [], 0
+    for f in ("manifest_file_number", "maybe_manifest_file"):
+        st = field_stores(b, f)
+        sites = [(s[0], "store to %s at line %s" % (f, s[2].get("line"))) for s in st]
+        if not st:
+            # the stores may sit in a private helper: its call site is what has to lie behind the edge
+            for c in b.calls():
+                h = P.bodies.get(c.t.get("resolved") or "")
+                if b.is_cleanup(c.bb) or h is None or c.t.get("dyn") or not c.t.get("local"):
+                    continue
+                if field_stores(h, f):
+                    R.analysed(h)
+                    sites.append((c.bb, "call of %s (stores %s) at line %s" % (c.name, f, c.line)))
+        if not sites:
+            bad.append("no store to %s" % f)
+        n += len(sites)
+        for (bb, what) in sites:
+            if not (ok_edges and b.must_pass(bb, through_edges=ok_edges)):
+                bad.append(what + " is reachable without the manifest having been opened for appending")
+    R.check(rule, fn + "|number-adopted-only-with-the-file", bool(opens) and not bad, where(b),
+            "manifest_file_number and maybe_manifest_file are assigned only behind the Ok edge of LogWriter::new(.., append = true): a declined "
+            "re-use leaves the number of the manifest that will actually be written", "; ".join(bad) or "%d stores behind %d ok edge(s)" % (n, len(ok_edges)))
+
+
+def ord18_gc_after_release(P, R, L, rule="ORD-18"):
+    """A finished table compaction makes its input files garbage, but remove_obsolete_files keeps every file some listed
+    version references: the compaction's own pin on its input version (CompactionManifest::release_inputs) has to be
+    dropped *before* the garbage collection that ends coordinate_compaction, or the inputs outlive the compaction until
+    some later compaction happens to collect them (never, on a database that then goes quiet)."""
+    fn = "compaction::worker::CompactionWorker::coordinate_compaction"
+    b = P.body(fn)
+    if b is None:
+        return R.missing_anchor(rule, fn)
+    R.analysed(b)
+    ct = [c for c in b.calls() if not b.is_cleanup(c.bb) and c.name == "compaction::worker::CompactionWorker::compact_tables"]
+    gc = [c for c in b.calls() if not b.is_cleanup(c.bb) and c.name == "db::DB::remove_obsolete_files"]
+    rel = [c for c in b.calls() if not b.is_cleanup(c.bb) and c.name == "compaction::manifest::CompactionManifest::release_inputs"]
+    after_ct = set()
+    for c in ct:
+        after_ct |= b.reachable(c.target) if c.target is not None else set()
+    rel_ct = [r for r in rel if r.bb in after_ct]
+    bad = []
+    for r in rel_ct:
+        for ret in b.return_blocks():
+            if not b.must_pass(ret, through_nodes=[g.bb for g in gc], start=r.target):
+                bad.append("release_inputs at line %s can be followed by the return without a remove_obsolete_files" % r.line)
+                break
+    R.check(rule, fn + "|collect-garbage-after-releasing-the-inputs", bool(ct) and bool(gc) and bool(rel_ct) and not bad, where(b),
+            "after compact_tables succeeded, every release of the compaction's input version is followed by remove_obsolete_files on every path "
+            "to the return (the collection sees the inputs unpinned)", "; ".join(bad) or "release sites %d, gc sites %d" % (len(rel_ct), len(gc)))
+
+
+_VEC = "std::vec::Vec<u8>"
+CODEC_PAIRS = {
+    # group: [(what, [encoder bodies], [decoder bodies], mode)]; mode "multiset": the static codec call sites agree one for
+    # one; mode "set": only the (codec, width) kinds agree (tagged / looped encodings whose site counts legitimately differ)
+    "batch": [
+        ("write batch header", ["batch::<impl std::convert::From<&batch::Batch> for %s>::from" % _VEC],
+         ["<batch::Batch as std::convert::TryFrom<&[u8]>>::try_from"], "multiset"),
+        ("write batch element", ["batch::<impl std::convert::From<&batch::BatchElement> for %s>::from" % _VEC],
+         ["batch::BatchElement::read_element"], "multiset"),
+    ],
+    "log": [
+        ("log block record header", ["logs::<impl std::convert::From<&logs::BlockRecord> for %s>::from" % _VEC],
+         ["<logs::BlockRecord as std::convert::TryFrom<&%s>>::try_from" % _VEC], "multiset"),
+    ],
+    "manifest": [
+        ("file metadata in a version edit", ["versioning::file_metadata::<impl std::convert::From<&versioning::file_metadata::FileMetadata> for %s>::from" % _VEC],
+         ["versioning::file_metadata::FileMetadata::deserialize"], "multiset"),
+        ("version edit", ["versioning::version_manifest::<impl std::convert::From<&versioning::version_manifest::VersionChangeManifest> for %s>::from" % _VEC],
+         ["<versioning::version_manifest::VersionChangeManifest as std::convert::TryFrom<&[u8]>>::try_from"], "set"),
+    ],
+    "table": [
+        ("internal key trailer", ["<key::InternalKey as key::RainDbKeyType>::as_bytes"],
+         ["<key::InternalKey as std::convert::TryFrom<%s>>::try_from" % _VEC], "multiset"),
+        ("table footer", ["tables::footer::<impl std::convert::TryFrom<&tables::footer::Footer> for %s>::try_from" % _VEC],
+         ["<tables::footer::Footer as std::convert::TryFrom<&%s>>::try_from" % _VEC], "multiset"),
+        ("block handle", ["tables::block_handle::<impl std::convert::From<&tables::block_handle::BlockHandle> for %s>::from" % _VEC],
+         ["tables::block_handle::BlockHandle::deserialize"], "multiset"),
+        ("block entry header", ["tables::block_builder::BlockBuilder::<K>::add_entry"], ["tables::block::BlockReader::<K>::deserialize_entries"], "multiset"),
+        ("block restart array", ["tables::block_builder::BlockBuilder::<K>::finalize"],
+         ["tables::block::BlockReader::<K>::new", "tables::block::BlockReader::<K>::deserialize_restart_offsets"], "set"),
+        ("filter block offsets", ["tables::filter_block_builder::FilterBlockBuilder::finalize"], ["tables::filter_block::FilterBlockReader::new"], "set"),
+        ("block checksum", ["tables::table_builder::TableBuilder::emit_block_to_disk"], ["tables::table::Table::read_block_from_disk"], "set"),
+    ],
+}
+
+
+def _codec_sites(P, R, names, depth=1):
+    out, missing = [], []
+    for n in names:
+        b = P.body(n)
+        if b is None:
+            missing.append(n)
+            continue
+        R.analysed(b)
+        for c in b.calls():
+            if b.is_cleanup(c.bb):
+                continue
+            dn = c.declared_name or c.name or ""
+            if dn.startswith("integer_encoding::"):
+                kind = "fixed" if "Fixed" in dn else "var"
+                out.append((kind, (c.t.get("substs") or ["?"])[-1]))
+            elif depth and "utils::io::" in dn:
+                o2, m2 = _codec_sites(P, R, [c.t.get("resolved") or dn], depth - 1)
+                out += o2
+    return out, missing
+
+
+def agr2_codec_pairs(P, R, L, groups=("batch", "log", "manifest", "table"), rule="AGR-2"):
+    """Every persisted structure is written by one function and read back by a sibling; the two must use the same integer
+    codec (fixed / varint) at the same width, field for field: `read_varint::<u8>` silently truncates what
+    `encode_var::<u32>` wrote, a fixed-width mismatch shifts every following field."""
+    from collections import Counter
+    R.clause(rule, "writer / reader siblings of every persisted structure use the same integer codec and width (groups: %s)" % ", ".join(groups))
+    n = 0
+    for g in groups:
+        for (what, enc, dec, mode) in CODEC_PAIRS[g]:
+            e, m1 = _codec_sites(P, R, enc)
+            d, m2 = _codec_sites(P, R, dec)
+            for m in m1 + m2:
+                R.missing_anchor(rule, m)
+            if m1 or m2:
+                continue
+            if mode == "multiset":
+                ok = Counter(e) == Counter(d)
+            else:
+                ok = set(e) == set(d)
+            ok = ok and bool(e)
+            n += 1
+            fmt = lambda xs: ", ".join("%s %s x%d" % (k, t, c) for (k, t), c in sorted(Counter(xs).items()))
+            b = P.body(dec[0])
+            R.check(rule, dec[0] + "|same-integer-codecs-as-the-writer", ok, where(b),
+                    "%s: the reader decodes the integer codecs and widths the writer (%s) encodes" % (what, enc[0].rsplit("::", 2)[-2] if "::" in enc[0] else enc[0]),
+                    "writer [%s] reader [%s]" % (fmt(e), fmt(d)))
+    R.floor(rule, "writer/reader codec pairs compared (%s)" % "+".join(groups), n, sum(len(CODEC_PAIRS[g]) for g in groups))
